@@ -19,6 +19,7 @@ CONSTANTS
   Weak_PruneDropsCheckpoint = FALSE
   Weak_NoCheckpointRecord = FALSE
   Weak_RecoveryCopyDropsValUpdates = FALSE
+  Weak_PruneStatesOneTooFar = FALSE
 INIT Init
 NEXT Next
 CHECK_DEADLOCK FALSE
